@@ -104,6 +104,8 @@ def jobs(tier, seed):
         if None not in cfg.values():
             add('ppm-plain', 11, 1, 1, **cfg)
     add('png', 21, 1, None, dpi=300)
+    add('png', 11, 2, 0, dpi=72)
+    add('png', 11, 1, 1, dpi=600.5)
     add('png', 21, 1, 0, compresslevel=1)
     add('xbm', 21, 1, None, name='qr')
     add('xpm', 21, 2, None, name='qr')
@@ -247,6 +249,13 @@ def job_render(res, L_, spec):
                  lambda: res.violation('dimensions', f'declared {meta.get("declared")}, pixel data {w} x {h}, expected {side} x {side}', to_input_zero(spec)))
     if w != side or h != side:
         return
+    if 'dpi' in kw and fmt.startswith('png'):
+        import struct
+        want_phys = struct.pack('>LLB', int(int(kw['dpi']) / 0.0254), int(int(kw['dpi']) / 0.0254), 1)      # dpi is documented as an integer
+        res.concrete('png-pHYs==dpi-in-pixels-per-metre', meta.get('pHYs') == want_phys,
+                     lambda: res.violation('png-phys', f'pHYs {meta.get("pHYs")!r} for dpi {kw["dpi"]}', to_input_zero(spec)))
+    elif fmt.startswith('png'):
+        res.concrete('png-no-pHYs-without-dpi', meta.get('pHYs') is None, None)
     if colorful:
         from . import c11
         codes = c11.type_codes(L_.consts)
@@ -1066,6 +1075,12 @@ def replay(viol):
     try:
         if fmt.startswith('png'):
             pix, declared = png_concrete(data)
+            import struct as _st
+            m_ = re.search(rb'pHYs(.{9})', data, re.S)
+            if 'dpi' in kw:
+                ppm = int(int(kw['dpi']) / 0.0254)
+                if not m_ or m_.group(1) != _st.pack('>LLB', ppm, ppm, 1):
+                    return True, f'pHYs chunk {m_.group(1) if m_ else None!r} for dpi {kw["dpi"]}'
         else:
             sink = Sink()
             sink.write(data)
